@@ -128,6 +128,7 @@ type World struct {
 	Skew       time.Duration // ClockSkew of every client
 	KOpts      []KOpt        // provider options about key sets, in order
 	UAUser     string        // worlds whose storage implements CanTerminateSessionFromRequest: the user of the user agent's session
+	LongSubs   []string      // end users with long subjects (WithLongSubjects, long.go); empty unless the driver opts in
 }
 
 func (w *World) Issuer(h int) string { return "https://" + w.Hosts[h] }
